@@ -334,6 +334,16 @@ PROPS = {
               dict(driver="hist", args=["--nops", "70", "--per-file", "6", "--descriptors",
                                         "--compact-bias", "1", "--profile", "fill"],
                    quick=24, thorough=600)]),
+    "C04": dict(
+        design=[("MC_RainIter.tla", ["MC_RainIter_small.cfg"], ["MC_RainIter_small.cfg", "MC_RainIter_big.cfg"])],
+        switches=[("Bug_NoReseekOnDirectionChange", "MC_RainIter.tla", "MC_RainIter_small.cfg", "CursorOK"),
+                  ("Bug_TombstoneNotRemembered", "MC_RainIter.tla", "MC_RainIter_small.cfg", "CursorOK"),
+                  ("Bug_PrevIgnoresSnapshot", "MC_RainIter.tla", "MC_RainIter_small.cfg", "CursorOK"),
+                  ("Bug_PrevStopsAtOldestVersion", "MC_RainIter.tla", "MC_RainIter_small.cfg", "CursorOK")],
+        work=[dict(driver="hist", args=["--nops", "60", "--per-file", "6", "--walks", "--max-iters", "3",
+                                        "--max-snaps", "3", "--snap-bias", "1"], quick=40, thorough=1000),
+              dict(driver="hist", args=["--nops", "70", "--per-file", "6", "--walks", "--profile", "hot",
+                                        "--compact-bias", "1"], quick=16, thorough=400)]),
     "C12": dict(
         design=[("MC_RainLog.tla", ["MC_RainLog_small.cfg", "MC_RainLog_realq.cfg"],
                  ["MC_RainLog_small.cfg", "MC_RainLog_deep.cfg", "MC_RainLog_real.cfg"])],
@@ -376,7 +386,7 @@ PROPS = {
 }
 
 PROP_SEED_BASE = {"C01": 1000, "C03": 3000, "C07": 7000, "C10": 10000, "C11": 11000,
-                  "C02": 2000, "C16": 16000, "C08": 8000, "C05": 5000, "C06": 6000, "C09": 9000, "C15": 15000, "C12": 12000, "C17": 17000}
+                  "C02": 2000, "C16": 16000, "C08": 8000, "C05": 5000, "C06": 6000, "C09": 9000, "C15": 15000, "C12": 12000, "C17": 17000, "C04": 4000}
 
 
 def check_prop(prop, tier, seed):
